@@ -11,18 +11,106 @@ COMMON_NOTE = ("Trusted base: the pyvc VC generator itself (symbolic executor of
                "meta-rules for comprehension extensionality and hypothesis instantiation, z3 5.1 / cvc5 1.0.3 / z3 "
                "4.8.12. Types of parameters are preconditions; int is mathematical; recursion depth unbounded. ")
 
+GEN_NOTE = (COMMON_NOTE + "BOUND: model/configuration STRUCTURE from the shape corpus specs/shapes.py (<= 3 ports, <= 5 events "
+            "per interface, <= 2 parameters per event, the listed configuration kinds incl. rejected ones); every name, "
+            "type text, file name, copyright/creator text is an unconstrained symbolic string, so each obligation holds "
+            "for all contents of its shape. Trusted: the run-time meaning of each emitted C++ statement kind (idiom table "
+            "of DESIGN.md section 3) and the constant C++ text of the support headers; model validity (identifiers, "
+            "distinct names per scope, MV-1 no line boundary inside model strings). ")
+GEN_TECH = ("contract-based deductive verification on a bounded structure corpus: symbolic execution of the real "
+            "Builder.build cone with symbolic string contents, generated text compared with the wiring specification "
+            "specs/wiring.py; z3 strings; native replay of counter-models")
+PARSER_NOTE = (COMMON_NOTE + "BOUND: document STRUCTURE from specs/docs.py (and, for C15, every single-point malformation of "
+               "it); all leaves symbolic. orjson.loads is outside the contract. ")
+
+
+def gen(text, ref):
+    return dict(category='other', text=text, note=GEN_NOTE, technique=GEN_TECH, ref=ref)
+
+
 CLAIMS = {
-    'C03': dict(
-        text="Proof: every obligation generated from the current /repo/src sources of PortSelect / PortsSemanticsCfg "
-             "/ PortsCfg (constructors and match, all 4x4 selection kinds, arbitrary string sets of any size, loop "
-             "invariant for the set loop) is discharged by z3; a refuted obligation is concretised and replayed on "
-             "the real functions.",
-        note=COMMON_NOTE + "Model validity: port names non-empty, provides/requires names disjoint. The look-up "
-             "sites of create_dzn_elements are covered by the builder-level contracts (see evidence functions list).",
-        technique="contract-based deductive verification: VCs from symbolic execution of the real AST, loop "
-                  "invariant with ghost `seen`, closed case split over selection kinds, z3 sets/arrays",
-        ref='3/C03'),
+    'C01': gen("For every string content of every shape: the constructor body (and the source file) contains exactly one "
+               "routing statement per (exposed MTS port, event) - the statement of the wiring relation W rendered by R - "
+               "none missing, none extra, none duplicated; boundary members are initialised from the same-named port. "
+               "Bounded in structure, unbounded in content: reported as 'other', not as a proof for all models.", '3/C01'),
+    'C02': gen("Per shape, for all contents: route kind follows the configured semantics; accessor name/type/body/member "
+               "are Sts<>/wrapped port resp. Mts<>/boundary member; STS ports get no constructor statement; posted "
+               "closures capture exactly the in-parameters by value.", '3/C02'),
+    'C03': dict(category='proof',
+                text="Proof: every obligation generated from the current sources of PortSelect / PortsSemanticsCfg / "
+                     "PortsCfg (constructors and match, all 4x4 selection kinds, arbitrary string sets of any size, loop "
+                     "invariant for the set loop) is discharged by z3. The look-up sites of create_dzn_elements (exposed "
+                     "port gets sem(), uncovered/unknown names rejected without files, injected ports never exposed) are "
+                     "checked on the generator shape corpus (bounded structure, symbolic content).",
+                note=COMMON_NOTE + "Model validity: port names non-empty, provides/requires names disjoint. The second "
+                     "part uses the generator harness (its bound applies to that part only).",
+                technique="contract-based deductive verification: VCs from symbolic execution of the real AST, loop "
+                          "invariant with ghost `seen`, closed case split over selection kinds, z3 sets/arrays",
+                ref='3/C03'),
+    'C04': gen("Per shape, for all contents: InitializePort<Port> consists of exactly the claim / release / other-event "
+               "statements of W for the events NAMED IN THE CONFIGURATION, the claim compares with the configured reply "
+               "and selects only then, multi-client out-events go through CurrentClient(); invalid multi-client settings "
+               "are rejected with MultiClientCfgError. The C++ selection state machine itself is trusted text.", '3/C04'),
+    'C05': dict(category='other',
+                text="For every leaf content of every document of the corpus, process() returns exactly expected(D): one "
+                     "entry per declaration incl. nested interface types, source order, fully qualified names, all details; "
+                     "unknown classes / non-dict elements skipped. Bounded in document structure, unbounded in content.",
+                note=PARSER_NOTE, technique="contract-based deductive verification on a bounded document corpus: symbolic "
+                     "execution of the real json_ast module, result compared with the inverse of the JSON rendering",
+                ref='3/C05'),
+    'C07': gen("Per shape, for all names: port interface types and parameter type texts are those of the declaration on "
+               "the scope chain of the referring scope (decoys in unrelated namespaces never used); missing, ambiguous, "
+               "shadowed-by-another-kind and wrong-kind lookups fail with FindError/MultiClientCfgError. The unbounded "
+               "lookup contract itself is C14.", '3/C07'),
+    'C08': gen("Per shape: content hash == MD5 hex digest of the UTF-8 contents (opaque pure functions); the files are "
+               "identical under different set-iteration oracles (2-safety, quick: 2 orders, thorough: all permutations "
+               "of <= 3 elements); no write to module-level state (frame). Native corpus adds runs under different "
+               "PYTHONHASHSEED.", '3/C08'),
+    'C09': gen("Per shape, both origins: facility members and their order, facility part of the member-initialiser list, "
+               "locator parameter/accessor presence, FacilitiesCheck conditions, header declaration order facilities < "
+               "wrapped component < boundary ports.", '3/C09'),
+    'C10': gen("Per shape: FinalConstruct body == FinalConstruct() of every multi-client port, check_bindings() of every "
+               "other exposed port and of the wrapped component, parent recorded; plus C01's constructor statements (an "
+               "unbound component event makes final construction fail).", '3/C10'),
+    'C12': gen("Per shape: no object reachable from the configuration / parsed model and no module-level object is "
+               "written during the build (every mutation site is checked by the executor on every path); support files "
+               "equal their stand-alone generation.", '3/C12'),
+    'C13': gen("Per shape: valid inputs return the 8 files with the specified names; each invalid shape is rejected with "
+               "the specified library error type; no builtin/internal exception type escapes on any path.", '3/C13'),
+    'C14': dict(category='proof',
+                text="Proof, unbounded: NamespaceIds invariant, + / += / str, notation round trips, NamespaceTree.fqn "
+                     "(recursion by contract), scope_resolution_order (while-loop invariant, frame), find_fqn == lookup "
+                     "and find_any == suffix_search for arbitrary FileContents of any size, get_single_instance / "
+                     "has_one_instance for every kind hint.",
+                note=COMMON_NOTE + "Trusted law: split(sep.join(L), sep) == L for non-empty L whose elements do not "
+                     "contain sep (side conditions proved by the engine). find_any: tail has >= 1 identifier.",
+                technique="contract-based deductive verification: refinement of executable ghost specifications, loop "
+                          "invariant, comprehension extensionality, exists-atoms, z3 sequences/strings",
+                ref='3/C14'),
+    'C15': dict(category='other',
+                text="Every single-point malformation of the corpus documents (key deleted / value of every other JSON "
+                     "kind / class tag changed / ids emptied / non-identifier / junk lists), with symbolic replacement "
+                     "contents: process() returns or raises DznJsonError / NamespaceIdsTypeError on every path; out "
+                     "events with a reply value or an out parameter are refused.",
+                note=PARSER_NOTE, technique="contract-based deductive verification on a bounded corpus: exhaustive "
+                     "single-point malformations, symbolic execution of the real parser, only_raises obligations",
+                ref='3/C15'),
+    'C16': dict(category='other',
+                text="Per document: processing again gives an equal result, the earlier result and the loaded document "
+                     "stay unchanged, other parsers in between have no influence, no module-level state is written.",
+                note=PARSER_NOTE, technique="contract-based deductive verification: result-equality and frame obligations "
+                     "over symbolic executions of process()", ref='3/C16'),
+    'C17': dict(category='proof',
+                text="Proof for all leaf contents: flatten_to_strlist == flat, TextBlock(...).lines == lines_of, append is "
+                     "concatenation, every stored line break-free, str form, round trip, trim_list, chunk - against "
+                     "specs/text.py; text blocks and strings are unbounded (any number of lines / any line breaks), the "
+                     "NESTING structure of contents and trim lists (<= 4) are enumerated.",
+                note=COMMON_NOTE + "Trusted laws of str.splitlines (UF): no line contains a boundary; empty iff no lines; "
+                     "splitlines('\\n'.join(L)+'\\n') == L for non-empty break-free L.",
+                technique="contract-based deductive verification: refinement of executable ghost specifications, loop "
+                          "summarisation, z3 sequences/strings", ref='3/C17'),
     'C18': dict(
+        category='proof',
         text="Proof: Indentizer.__post_init__/to_list/to_str and TextBlock.indent refine the ghost specification "
              "specs/text_gen.py for every list of strings of any length, every spaces_count >= 0 and every glyph "
              "(per-line lemma lifted by comprehension extensionality); to_str carries a `decreases: none` "
@@ -33,6 +121,23 @@ CLAIMS = {
         technique="contract-based deductive verification: refinement of an executable ghost specification, "
                   "per-element obligations over symbolic sequences, z3 strings + EUF",
         ref='3/C18'),
+    'C19': dict(category='proof',
+                text="Proof: str(Comment(text)) == comment_text(lines) for ANY text, every rendered line provably starts "
+                     "with '//', rendering leaves the object unchanged (frame). In generated files (shape corpus) the "
+                     "copyright / creator symbols occur only inside lines proved to be // comment lines.",
+                note=COMMON_NOTE + "Part (c) uses the generator harness (bounded structure). How a C++ preprocessor treats "
+                     "a trailing backslash in comment text is outside the statement.",
+                technique="contract-based deductive verification: per-line lemma over symbolic sequences, frame "
+                          "comparison, dependence check on the symbolic output term", ref='3/C19'),
+    'C20': dict(category='proof',
+                text="Proof for all names / type texts / qualifiers / bodies: as_decl / as_def / __str__ of Param, "
+                     "TypeDesc, Function, Constructor, Destructor, Struct, Class, Namespace, MemberVariable refine "
+                     "specs/cpp_gen.py (same sub-texts in declaration and definition; defaults and specifiers only on the "
+                     "declaration; no definition when initialised; balanced named pairs). Parameter / initialiser lists "
+                     "have 0-2 entries (enumerated). 'Accepted by a C++ compiler' is not claimed.",
+                note=COMMON_NOTE + "Body texts are arbitrary strings (splitlines laws as in C17).",
+                technique="contract-based deductive verification: refinement of executable ghost specifications, closed "
+                          "case split over enum/boolean fields, z3 strings", ref='3/C20'),
 }
 
 NA = {
@@ -56,7 +161,7 @@ def main():
                 'evidence_file': f'evidence/{pid}.json',
                 'replay_cmd_template': f'./check {pid} --replay {{path}}',
                 'engine': 'pyvc',
-                'level_claimed': {'category': 'proof', 'text': c['text'], 'design_ref': c['ref']},
+                'level_claimed': {'category': c.get('category', 'proof'), 'text': c['text'], 'design_ref': c['ref']},
                 'level_note': c['note'],
                 'technique': c['technique'],
             })
